@@ -65,6 +65,17 @@ Theorem C14_weaver_normalize : forall s lo hi s', step s (ONormX lo hi) = (s', O
 Proof. exact weaver_normalize_x. Qed.
 Print Assumptions C14_weaver_normalize.
 
+(** ======== generated arithmetic = model (Gen/Kernels.v is regenerated from the source on every check) ======== *)
+From TW Require Import Model.MatchSpec Model.Process Gen.Kernels Proofs.KernelsLink.
+Theorem C14_generated_normalize : forall a lo hi,
+  normalize__ret (VV a) (normalize__a_min (VV a)) (normalize__a_max (VV a)) (VS hi) (VS lo) = VV (normalize a lo hi).
+Proof. exact gen_normalize. Qed.
+Print Assumptions C14_generated_normalize.
+
+Theorem C14_generated_trend_range : forall x, x <> [] -> trend__range_x (VV x) = VS (lastq x - headq x).
+Proof. exact gen_trend_range. Qed.
+Print Assumptions C14_generated_trend_range.
+
 Example C14_example :
   list_eqb Qc_eqb (normalize [qz 2; qz 4; qz 3] (qz 10) (qz 20)) [qz 10; qz 20; qz 15] = true.
 Proof. vm_compute. reflexivity. Qed.
